@@ -4,7 +4,9 @@ import (
 	"bytes"
 	"encoding/json"
 	"encoding/xml"
+	"errors"
 	"fmt"
+	"io"
 	"mime/multipart"
 	"net/http"
 	"net/http/httptest"
@@ -12,6 +14,7 @@ import (
 	"reflect"
 	"strconv"
 	"strings"
+	"testing/iotest"
 
 	"github.com/gookit/rux"
 	"github.com/gookit/rux/pkg/binding"
@@ -93,7 +96,7 @@ type c18Tags struct {
 }
 
 type c18Case struct {
-	Kind   string `json:"kind"` // table | roundtrip | malformed | validator | tags
+	Kind   string `json:"kind"` // table | roundtrip | malformed | validator | tags | request-history
 	Method string `json:"method,omitempty"`
 	Format string `json:"format,omitempty"`
 	First  int    `json:"first,omitempty"`
@@ -110,6 +113,7 @@ func c18Gen(tier string, emit func(c18Case)) {
 		emit(c18Case{Kind: "table", Method: m})
 	}
 	emit(c18Case{Kind: "tags", MaxLen: map[string]int{"quick": 3, "thorough": 4}[tier]})
+	emit(c18Case{Kind: "request-history"})
 	for _, f := range []string{"query", "form", "multipart", "json", "xml"} {
 		emit(c18Case{Kind: "roundtrip", Format: f})
 		emit(c18Case{Kind: "validator", Format: f})
@@ -173,6 +177,67 @@ func c18Run(c c18Case, st *fw.Stats) []fw.Viol {
 		}
 	}
 	switch c.Kind {
+	case "request-history":
+		// (1) the request's form was parsed earlier (by a middleware reading a form value) while it still was a POST
+		// with a body, then its method became body-less (method override) or its parsed form was edited: the source
+		// of a body-less bind is the query string of the request as it is
+		for _, m := range []string{"DELETE", "GET", "HEAD", "OPTIONS"} {
+			for _, edit := range []string{"none", "del-key", "set-key"} {
+				st.Evals++
+				st.Nontrivial++
+				req := httptest.NewRequest("POST", "/x?name=Q", strings.NewReader("name=F&other=1"))
+				req.Header.Set("Content-Type", "application/x-www-form-urlencoded")
+				_ = req.FormValue("other") // parses body and query into req.Form / req.PostForm
+				switch edit {
+				case "del-key":
+					req.Form.Del("name")
+				case "set-key":
+					req.Form.Set("name", "EDITED")
+				}
+				req.Method = m
+				var obj c18Src
+				var err error
+				if pv := try(func() { err = binding.Auto(req, &obj) }); pv != nil {
+					add("history:panic", fmt.Sprintf("bind of a %s request whose form was parsed earlier panicked: %v", m, pv))
+				} else if err != nil || obj.Name != "Q" {
+					add("history:query-source", fmt.Sprintf("a request had its form parsed while it was a POST (body name=F, query name=Q; parsed form edited: %s) and is now %s: Auto bound Name=%q err=%v; the query string carries \"Q\"", edit, m, obj.Name, err))
+				}
+			}
+		}
+		// (2) a JSON / XML bind whose body reader failed after delivering part of the body, then ordinary binds: each
+		// bind sees its own body only
+		for _, f := range []string{"json", "xml"} {
+			ct, part, good, goodName, empty := "application/json", `{"name":"STALE"`, `{"name":"ok"}`, "ok", ""
+			if f == "xml" {
+				ct, part, good = "application/xml", `<o><name>STALE</name>`, `<o><name>ok</name></o>`
+			}
+			for round := 0; round < 3; round++ {
+				st.Evals++
+				st.Nontrivial++
+				bad := httptest.NewRequest("POST", "/x", io.MultiReader(strings.NewReader(part), iotest.ErrReader(errors.New("connection reset"))))
+				bad.Header.Set("Content-Type", ct)
+				var o1 c18Src
+				var e1 error
+				if pv := try(func() { e1 = binding.Auto(bad, &o1) }); pv != nil {
+					add("history:panic", fmt.Sprintf("%s bind with a failing body reader panicked: %v", f, pv))
+				} else if e1 == nil {
+					add("history:read-error-ignored", fmt.Sprintf("%s bind whose body reader failed after %q succeeded with Name=%q", f, part, o1.Name))
+				}
+				for _, body := range []string{good, empty, good} {
+					req := httptest.NewRequest("POST", "/x", strings.NewReader(body))
+					req.Header.Set("Content-Type", ct)
+					var o2 c18Src
+					var e2 error
+					if pv := try(func() { e2 = binding.Auto(req, &o2) }); pv != nil {
+						add("history:panic", fmt.Sprintf("%s bind after a failed body read panicked: %v", f, pv))
+					} else if body == good && (e2 != nil || o2.Name != goodName) {
+						add("history:stale-body", fmt.Sprintf("%s bind of %q after an earlier bind whose body reader failed half way: Name=%q err=%v, expected %q", f, body, o2.Name, e2, goodName))
+					} else if body == empty && e2 == nil {
+						add("history:stale-body", fmt.Sprintf("%s bind of an EMPTY body after an earlier bind whose body reader failed half way succeeded with Name=%q", f, o2.Name))
+					}
+				}
+			}
+		}
 	case "tags":
 		// every sequence of <= MaxLen binds over the six sources, in one process: each bind reads the field under the
 		// name its own source's tag gives it, whatever was bound before
@@ -659,7 +724,7 @@ var c18Spec = fw.Spec[c18Case]{
 	ID:      "C18",
 	Level:   "model_checking",
 	Workers: 1,
-	Rule: "complete enumeration: decision table 19 method tokens (the nine standard ones, extension methods, other spellings, empty) x 22 Content-Type strings (the unsupported ones include sub-types spelled like registered binder names) x query present/absent, every source carrying a different value; all sequences of <=3 (thorough 4) binds over 6 sources of a struct whose field has a different name in every source's tag; round trip of all values of a struct over int{0,1,-7,2^31} x 9 strings (unicode, separators, markup, quotes) x bool x 4 int slices through query / urlencoded / multipart / JSON / XML; all byte strings of length <=4 (thorough 5) over 14 bytes as body per format (must not panic; malformed JSON/XML must yield an error); validator on/off reached through every history of <=3 switch operations {ResetValidator, DisableValidator, assign a custom validator, assign nil} x values on both sides of each rule and a completely empty value set; " +
+	Rule: "complete enumeration: decision table 19 method tokens (the nine standard ones, extension methods, other spellings, empty) x 22 Content-Type strings (the unsupported ones include sub-types spelled like registered binder names) x query present/absent, every source carrying a different value; requests with a history (form parsed before the method became body-less / the parsed form edited; a body reader that failed half way before the next binds); all sequences of <=3 (thorough 4) binds over 6 sources of a struct whose field has a different name in every source's tag; round trip of all values of a struct over int{0,1,-7,2^31} x 9 strings (unicode, separators, markup, quotes) x bool x 4 int slices through query / urlencoded / multipart / JSON / XML; all byte strings of length <=4 (thorough 5) over 14 bytes as body per format (must not panic; malformed JSON/XML must yield an error); validator on/off reached through every history of <=3 switch operations {ResetValidator, DisableValidator, assign a custom validator, assign nil} x values on both sides of each rule and a completely empty value set; " +
 		"non-trivial = a table row / a round-tripped value / a malformed body",
 	Assume: []string{"media types that merely contain a canonical subtype as a substring (application/jsonp) are outside the alphabet", "runs single-threaded: the validator switch is package-global", "encoding/json and encoding/xml decide what 'malformed' means"},
 	Bounds: func(tier string) map[string]any {
